@@ -15,13 +15,17 @@ initial state too) and checks after EVERY call
 If the property holds the reachable state graph is ONE node with one self-loop per event: R.states = 1 + number of
 distinct events of the sequence, R.transitions = calls executed.
 """
+import glob
 import itertools
+import json
+import math
+import os
 
 from mc.harness import Result, Sub
 from mc.ref import purity as P
 
 ASSUMPTIONS = [
-    "events = 85 public entry points with fixed small arguments on shared fixtures (2D: N=8, 3D: N=9, 3 frames, two species; "
+    "events = 86 public entry points with fixed small arguments on shared fixtures (2D: N=8, 3D: N=9, 3 frames, two species; "
     "3D box centred on the origin so that the freud path aliases snapshot.positions); voropp_neighbors (external voro++ "
     "binary) and the gsd readers (gsd module not installed) are not in the alphabet",
     "results must be BIT-identical between calls; this relies on the harness pinning BLAS/OpenMP/freud to one thread",
@@ -38,7 +42,7 @@ ASSUMPTIONS = [
     "numpy print options changed by Nnearests (np.set_printoptions) are process state outside the property (no array, no result depends on it)",
 ]
 
-_REFS = {}  # (seed, event) -> (digest, nontrivial); computed in pristine forked children, cached per worker
+_REFS = {}  # (seed, event) -> (digest, nontrivial); computed in pristine forked children, cached per worker and shared between the workers of a run
 
 
 def _seq_cases(seed, seqs, kind):
@@ -62,8 +66,6 @@ def gen_chain(tier, seed):
     ev = P.EVENT_NAMES
     n = len(ev)
     # round robin through all events, twice; forwards, backwards and two rotations interleaving distant events
-    import math
-
     s = next(k for k in (7, 11, 13, 17, 1) if math.gcd(k, n) == 1)
     yield from _seq_cases(seed, [ev + ev, ev[::-1] + ev[::-1], [ev[(s * i) % n] for i in range(n)] * 2,
                                  ev[n // 2:] + ev[: n // 2] + ev], "chain")
@@ -77,10 +79,43 @@ def gen_core3(tier, seed):
     yield from _seq_cases(seed, (p for p in itertools.product(P.CORE, repeat=3)), "core_depth3")
 
 
+def _refs_file():
+    return os.path.join(os.getcwd(), f"c18refs_{os.getppid()}.jsonl")
+
+
+def _publish(seed, name, ref):
+    """Append a from-initial reference to this worker's table (its scratch cwd, removed by the runner with the worker)."""
+    with open(_refs_file(), "a", encoding="utf-8") as f:
+        f.write(json.dumps([seed, name, ref[0], bool(ref[1])]) + "\n")
+
+
+def _siblings():
+    """References already computed by the sibling workers of the same run (same parent pid).  A reference is the result
+    digest of the event in a pristine child on fresh fixtures, so it is the same whichever worker computes it; sharing
+    only saves recomputation (a wrong entry could only ADD violations, never hide one from the replay, which recomputes)."""
+    pat = os.path.join(os.path.dirname(os.getcwd()), "vf_c18_*", os.path.basename(_refs_file()))
+    for fn in glob.glob(pat):
+        try:
+            with open(fn, "r", encoding="utf-8") as f:
+                lines = f.read().splitlines()
+        except OSError:
+            continue
+        for ln in lines:
+            try:
+                s, n, d, nt = json.loads(ln)
+            except ValueError:  # a line being appended right now
+                continue
+            _REFS.setdefault((s, n), (d, bool(nt)))
+
+
 def _ref(seed, name):
+    if (seed, name) not in _REFS:
+        _siblings()
     if (seed, name) not in _REFS:
         out = P.in_child(P.reference_child, seed, name)
         _REFS[(seed, name)] = out[1] if out[0] == "ok" else None
+        if out[0] == "ok":
+            _publish(seed, name, out[1])
     return _REFS[(seed, name)]
 
 
@@ -90,7 +125,7 @@ def run(case):
     P.library_functions()  # import every PyMatterSim module in the (pristine) parent; nothing is executed
     out = P.in_child(P.sequence_child, seed, seq)
     if out[0] != "ok":
-        R.fail(f"[{' -> '.join(seq)}] exception {out[1]}: {out[2]} @ {out[3]}", sub="C18.repeatable",
+        R.fail(f"[{P.show(seq)}] exception {out[1]}: {out[2]} @ {out[3]}", sub="C18.repeatable",
                sig={"clause": "exception", "exception": out[1], "where": out[3]})
         R.nontrivial = False
         return R
@@ -104,13 +139,14 @@ def run(case):
     for k, (name, d, nt) in enumerate(o["calls"]):
         if k == 0 and (seed, name) not in _REFS:
             _REFS[(seed, name)] = (d, nt)
+            _publish(seed, name, (d, nt))
         ref = _ref(seed, name)
         nodes.add((name, d))
         nontrivial = nontrivial and nt
         if ref is None:
             continue  # the event raises from the initial state: reported by its own depth-1 sequence
         if d != ref[0]:
-            R.fail(f"[{' -> '.join(seq[: k + 1])}] result of call {k + 1} ({name}) differs bit-wise from the result of {name} called first on fresh fixtures",
+            R.fail(f"[{P.show(seq[: k + 1])}] result of call {k + 1} ({name}) differs bit-wise from the result of {name} called first on fresh fixtures",
                    sig={"clause": "repeatable", "event": name}, exp=ref[0], obs=d, sub="C18.repeatable")
     R.outcome([c[1] for c in o["calls"]])
     R.nontrivial = bool(nontrivial) and len(o["calls"]) == len(seq)
